@@ -79,8 +79,8 @@ def main():
         shutil.rmtree(work, ignore_errors=True)
         ck.finish()
     ncorp = run_corpus(ck, exe, work)
-    nprogs = 1500 if quick else 30000
-    opts = dict(jmpi=False)
+    nprogs = 6000 if quick else 120000
+    opts = dict(jmpi=True)
     fails, nev, stats, pwork = progtie.run_programs(ck, exe, ENGINES, nprogs, opts=opts, per_batch=25 if quick else 60)
     seen = {}
     for f in fails:
@@ -122,8 +122,7 @@ def main():
     ck.sample({"program_text_head": P.text().split("\n")[:40]})
     ck.cov["exhaustive"] = False
     ck.assumptions += ["SSA construction, LICM, register allocation, combine and the x86 encoder are exercised, not modelled",
-                       "programs using laddr/jmpi are generated only in the thorough tier of later rounds (open generator defects)",
-                       "engines are built as shipped (-DNDEBUG)"]
+                                              "engines are built as shipped (-DNDEBUG)"]
     shutil.rmtree(work, ignore_errors=True)
     shutil.rmtree(pwork, ignore_errors=True)
     ck.finish()
